@@ -160,6 +160,11 @@ def theorem_family(ew, enc, names):
     if mems and (len(mems) > 1 or af is None):
         return None
     bc = mems[0].split(":")[9] != "0" if mems else False
+    # --- alternative encodings selected by mod_mr() / mod_rm()
+    if enc in (0x85, 0x88) and mode == 64 and optl == ["modmr"] and k == "-" and sig == "RRR" and inn("xrvm"):
+        return "xop_rvm_modmr"
+    if enc in (0x19, 0x2C) and mode == 64 and optl == ["modrm"] and k == "-" and sig == "RR" and regs[0] == regs[1] and regs[0] in ("gpw", "gpd", "gpq"):
+        return "rr_modrm"
     # --- VEX / EVEX classes
     if enc in VEX_SHAPE or enc in (0x83, 0x84):
         sh = VEX_SHAPE[enc] if enc in VEX_SHAPE else ("mr" if sig == "MR" else "rm")      # VexRmMr: loads in `rm`, stores in `mr`
@@ -284,7 +289,58 @@ def theorem_family(ew, enc, names):
     return None
 
 
-def build_sweep(kept, rng, tier):
+# encoding classes whose reg-reg path tests InstOptions::kX86_ModMR / kX86_ModRM (x86assembler.cpp) - the alternative encoding re-packs operands
+MODMR_CLASSES = ("X86Arith", "X86Mov", "X86Bndmov", "ExtMov", "ExtMovq", "VexRvmRmv", "VexRvmRmvRmi", "Fma4", "Fma4_Lx", "VexKmov")
+
+
+def option_pass(kept, rng, tier, enc_of):
+    """deterministic pass over the ENCODING-CHOICE options: every form gets every option its class honours at least once per mode
+    (mod_mr / mod_rm on all-register instantiations with pairwise different register ids, so that swapped operands cannot hide;
+    vex3 / vex / evex on VEX-family forms; long_form on immediate / rel forms, short_form on rel forms)"""
+    emits, meta = [], []
+    reps = 1 if tier == "quick" else 3
+    encn = encoding_names()
+    for (f, roles) in kept:
+        cls = encn.get(enc_of.get(f["name"], -1), "")
+        nreg = sum(1 for o in f["operands"] if o["reg"] and not o["implicit"])
+        opts = []
+        if nreg >= 2 and (cls in MODMR_CLASSES or rng.random() < 0.05):
+            opts += [("modmr", False), ("modrm", False)]
+        if f["prefix"] == "VEX":
+            opts += [("vex3", None), ("vex", None)]
+        if f["prefix"] == "EVEX":
+            opts += [("evex", None)]
+        if any(o["rel"] for o in f["operands"]):
+            opts += [("long", None), ("short", None)]
+        elif any(o["imm"] and not o["implicit"] for o in f["operands"]):
+            opts += [("long", None)]
+        for mode in (64, 32):
+            for (opt, wm) in opts:
+                for v in range(reps):
+                    want_mem = (v % 2 == 1) if wm is None else wm
+                    if wm is None and reps == 1:
+                        want_mem = rng.random() < 0.5
+                    r = None
+                    for _try in range(8):
+                        r = c01_forms.instantiate(f, roles, mode, rng, want_mem=want_mem, force_opt=opt)
+                        if r is None or opt not in ("modmr", "modrm"):
+                            break
+                        regs = [t.split(":")[1:] for t in r[0].split()[3:] if t.startswith("R:")]
+                        if len({tuple(t) for t in regs}) == len(regs):
+                            break
+                    if r is None:
+                        continue
+                    if opt in ("modmr", "modrm") and " M:" in r[0]:
+                        continue
+                    tail, off = r
+                    if f["name"] == "xchg" and " M:" not in tail:
+                        continue
+                    emits.append("%d %x %d %s" % (mode, BASE, off, tail))
+                    meta.append(f)
+    return emits, meta
+
+
+def build_sweep(kept, rng, tier, enc_of=None):
     """emit lines (without the leading 'emit') + the form each came from"""
     emits, meta = [], []
     nvar = 4 if tier == "quick" else 60
@@ -301,6 +357,10 @@ def build_sweep(kept, rng, tier):
                     continue   # lea of a bare absolute address: the value, not the address, matters (REX.W removal); model-only
                 emits.append("%d %x %d %s" % (mode, BASE, off, tail))
                 meta.append(f)
+    if enc_of is not None:
+        e2, m2 = option_pass(kept, rng, tier, enc_of)
+        emits += e2
+        meta += m2
     # hand-written probes of option paths the generator does not reach
     for m in (64, 32):
         for kk in ("kmovw", "kmovd", "kmovq", "kmovb"):
@@ -321,7 +381,7 @@ def run(res):
     rng = vlib.rng_for(res.seed, PID)
     res.assumptions += [
         "Spec/X86Decode.lean is our reading of SDM vol.2 ch.2 (instruction format) — cross-checked against llvm-mc in the thorough tier",
-        "db/isa_x86.json read through db/x86.js; 12 database errata re-spelled in tools/gen_c01.py (ERRATA_*), APX forms excluded",
+        "db/isa_x86.json read through db/x86.js; 14 database errata re-spelled in tools/gen_c01.py (ERRATA_*), APX forms excluded",
         "relocation / unbound-label paths are not judged here (C03/C04/C17)",
         "immediates are generated inside the range of their field (truncation of oversized immediates is not examined)"]
     broken = []
@@ -353,7 +413,8 @@ def run(res):
 
     # -- L2b/L3: sweep, monitor, correspondence ----------------------------------------------------------
     h = vlib.build_harness("c01")
-    emits, meta = build_sweep(kept, rng, res.tier)
+    rows0 = instruction_rows(h, kept)
+    emits, meta = build_sweep(kept, rng, res.tier, {n: int(r[1]) for n, r in rows0.items()})
     impl, aborts = run_resilient([str(h)], ["emit " + e for e in emits])
     if len(impl) != len(emits):
         res.violation("harness protocol failure: %d answers for %d lines" % (len(impl), len(emits)), {}, False, key="protocol")
